@@ -104,7 +104,7 @@ fn gen_fixture<D: Distance>(metric: Metric) -> Result<Fixture, String> {
         let mut models: Vec<BTreeMap<u32, Vec<f32>>> = vec![BTreeMap::new(); 3];
         let mut mix = Mix::new(attempt * 7919 + metric as u64);
         let build = |w: &Writer<D>, wtxn: &mut heed::RwTxn, n_trees: usize, split_after: Option<usize>, seed: u64| -> Result<(), String> {
-            let b = BuildOpts { ix: 0, n_trees: Some(n_trees), split_after, avail_mem: None, rng_seed: seed, threads: 1, cancel_at: None };
+            let b = BuildOpts { ix: 0, n_trees: Some(n_trees), split_after, avail_mem: None, rng_seed: seed, threads: 1, cancel_at: None, twice: false };
             match do_build::<D>(w, wtxn, &b, u64::MAX / 8) {
                 BuildOutcome::Ok { .. } => Ok(()),
                 _ => Err("fixture build failed".into()),
@@ -608,7 +608,7 @@ pub fn run_c16(tier: Tier) -> i32 {
                     metric,
                     target,
                     ops,
-                    build: BuildOpts { ix: 0, n_trees, split_after, avail_mem: None, rng_seed, threads: 1, cancel_at: None },
+                    build: BuildOpts { ix: 0, n_trees, split_after, avail_mem: None, rng_seed, threads: 1, cancel_at: None, twice: false },
                     qseed,
                 })
         },
